@@ -164,7 +164,8 @@ def _init_strategy():
                                n_cards=(4, 30), p_missing=0.35, mvr_modes=("copy",) * 8 + ("other", "phantom", "drop-contest")))
         scn["pool_workflow"] = True
         n = len(scn["cards"])
-        nums = [int(v) for v in draw(st.permutations(list(range(1, n + 1))))]
+        first = draw(st.sampled_from([1, 1, 0]))   # numbering from 1, or from 0 (the first card's number is then 0)
+        nums = [int(v) for v in draw(st.permutations(list(range(first, n + first))))]
         return {"scn": scn, "sample_nums": nums}
 
     return init()
